@@ -126,6 +126,9 @@ func runC12(c *Ctx, n, t int, tag string, plan c12Plan, fail func(kind, what str
 			// seeded stream; deals are re-encrypted with fresh ephemeral keys
 			data = string(res.ResultMsgs[0].Data)
 		}
+		// the NUMBER of messages a result carries is deterministic for every step (one broadcast, or one
+		// per addressee): a replayed result must not carry stale messages next to the recomputed ones
+		data = fmt.Sprintf("%d messages|%s", len(res.ResultMsgs), data)
 		return string(res.Event), data
 	}
 	resultsDir := filepath.Join(cl.MDirs[plan.victim], "results")
